@@ -7,8 +7,10 @@ from . import _grammar_check as gc
 
 S, R = families.S, families.R
 # regex-backed terminals matter here (a regex anchored at the wrong place consults earlier characters)
-T_C16 = tuple(t for t in families.T_FULL if t != R("SOI")) + (R("ASCII_HEX_DIGIT"), ("star", ("grp", ("seq", (("not", S("b")), R("ANY"))))), ("alt", (S("a"), S("b"), ("range", "A", "B"))),
-                            ("star", ("grp", ("seq", (("not", ("grp", ("alt", (S("a"), S("b"))))), R("ANY"))))))
+T_C16 = tuple(t for t in families.T_FULL if t != R("SOI")) + (R("ASCII_ALPHA_UPPER"), ("star", ("grp", ("seq", (("not", S("b")), R("ANY"))))), ("alt", (S("a"), S("b"), ("range", "A", "B"))),
+                            ("star", ("grp", ("seq", (("not", ("grp", ("alt", (S("a"), S("b"))))), R("ANY"))))),
+                            # a stop string that overlaps itself (which occurrences a non-overlapping scan finds depends on where it starts)
+                            ("star", ("grp", ("seq", (("not", S("aa")), R("ANY"))))))
 
 
 def shift_tree(tree, k):
